@@ -363,6 +363,16 @@ def c04_diag(case, out, res, which):
     tests = [bool(dg.corr_test), bool(dg.aatest.test_ok), bool(dg.bbtest.test_ok), bool(dg.dwtest.test_ok)]
     if rd['tests'] != tests:
       fails.append('design %d: test outcomes %s, recomputed %s' % (k, rd['tests'], tests))
+    else:
+      # ... and against the documented definitions of the four tests, evaluated by the harness itself
+      from .search import documented_tests
+      mine = documented_tests(x, y, p)
+      names = ['correlation', 'A/A', 'Brownian bridge', 'Durbin-Watson']
+      for nm, got, want in zip(names, rd['tests'], mine):
+        if want is None or want == 'undefined':
+          continue
+        if bool(got) != want:
+          fails.append('design %d: %s test reported %s; by its documented definition on the design\'s own series it is %s' % (k, nm, got, want))
     from .search import documented_score
     want = [float(v) for v in documented_score(dg, br[1] if (which == 'exhaustive' and br) else None)]
     if not all(same(a, b) for a, b in zip(d['score'], want)):
